@@ -93,8 +93,11 @@ def run(ctx):
         style = 'v1' if (tries // 2) % 2 == 0 else 'v2'
         n_m = int(rng.integers(2, 8))
         # one cube package per run holds over a thousand models (real packages hold 10^4..10^5), with plants among the last ones
-        big = (not BIG_DONE) and ctx.shard == 0 and tries >= 6 and mode == '2d' and style == 'v2'
+        big = (not BIG_DONE) and ctx.shard == 0 and tries >= 5
         if big:
+            # (every try from the fifth on is the big cube package until one has run with a plant among its last models: the class
+            #  must not depend on which tries the degeneracy and leverage filters happen to reject)
+            mode, style = '2d', 'v2'
             n_m = 1300
         n_ap = 1 if mode == '2d' else int(rng.integers(2, 5))
         n_w = int(rng.choice([15, 40]))
